@@ -93,13 +93,20 @@ def runner(rep, tier, seed, replay):
         judge(rep, c["scenario"], c["text"], res)
         rep.cov["evaluations"] = 1
         return rep.finish(rule="replay of one recorded scenario")
-    for cfg in (["MCPipeline_3", "MCPipeline_3e", "MCPipeline_cap"] if tier == "quick"
-                else ["MCPipeline_3", "MCPipeline_3e", "MCPipeline_4", "MCPipeline_4e", "MCPipeline_cap", "MCPipeline_f3"]):
+    for cfg in (["MCPipeline_3", "MCPipeline_3e", "MCPipeline_cap", "MCPipeline_capE", "MCPipeline_capE2"] if tier == "quick"
+                else ["MCPipeline_3", "MCPipeline_3e", "MCPipeline_4", "MCPipeline_4e", "MCPipeline_cap", "MCPipeline_capE", "MCPipeline_capE2",
+                      "MCPipeline_f3"]):
         r = run_tlc("MCPipeline", cfg, timeout=3000)
         if r.violation:
             raise ToolError("Pipeline model violates C02 at the design level (%s):\n%s" % (cfg, r.violation[:2500]))
         check_action_coverage(r, ["Fork", "PCloseW", "PCloseR", "CDupIn", "CDupOut", "CExec", "Wait"])
         rep.add_tlc(r)
+    # negative control: with stdout read to EOF before stderr (core.rs as pinned) a captured command that fills the stderr
+    # pipe deadlocks the shell - TLC must find the non-terminating behaviour
+    rl = run_tlc("MCPipeline", "MCPipeline_capE_legacy", coverage=False)
+    rep.add_tlc(rl)
+    if not rl.violation or "Termination" not in rl.violation:
+        raise ToolError("negative control failed: the sequential capture read terminates in the model")
     scen = []
     r = run_tlc("MCPipeScen", "MCPipeScen_q" if tier == "quick" else "MCPipeScen_t", on_replay=scen.append, keep_replays=False, timeout=1800)
     rep.add_tlc(r)
